@@ -343,6 +343,24 @@ func (p *Program) declareFamily(fd *FamilyDecl, pkgName string) error {
 	// key sorts from the key function's signature
 	if strings.HasPrefix(fd.KeyFunc, "global:") || strings.HasPrefix(fd.KeyFunc, "const:") {
 		fam.KeyFunc = fd.KeyFunc
+	} else if strings.HasPrefix(fd.KeyFunc, "ghost:") {
+		// ghost state: a world component no store key reaches; only contracts (of trusted functions) speak about it.
+		// key ghost:Str,Bytes gives the key sorts.
+		fam.KeyFunc = "ghost:" + fd.Name
+		fam.Enc = "ghost"
+		for _, n := range strings.Split(strings.TrimPrefix(fd.KeyFunc, "ghost:"), ",") {
+			switch strings.TrimSpace(n) {
+			case "Str":
+				fam.KeySorts = append(fam.KeySorts, SStr)
+			case "Bytes":
+				fam.KeySorts = append(fam.KeySorts, SBytes)
+			case "Int":
+				fam.KeySorts = append(fam.KeySorts, SInt)
+			case "":
+			default:
+				return fmt.Errorf("family %s: ghost key sort %s", fd.Name, n)
+			}
+		}
 	} else {
 		fn := p.findFunc(fd.KeyFunc)
 		if fn == nil {
